@@ -138,7 +138,7 @@ def run(ctx):
             ctx.case(key=(name, "keep-protons round trip"))
             ctx.count("keep-protons round trips")
             if o.error:
-                kbad.append((name, ["error %r" % (o.error,)], pdbgen.text(hl)))
+                kbad.append((name, ["error %r" % (o.error,)], pdbgen.text(hl), text))
             else:
                 ra = {(g["key"], g["type"]): g for g in b0.confs[b0.mol.conformation_names[0]]}
                 rb = {(g["key"], g["type"]): g for g in o.confs[o.mol.conformation_names[0]]}
@@ -150,7 +150,7 @@ def run(ctx):
                     elif abs(x["pka"] - y["pka"]) > 1e-9:
                         d.append("%s pKa %r vs %r after the round trip" % (x["label"], x["pka"], y["pka"]))
                 if d:
-                    kbad.append((name, d[:3], pdbgen.text(hl)))
+                    kbad.append((name, d[:3], pdbgen.text(hl), text))
     for b in ebad[:3]:
         ctx.violate("unused-content:" + b[1].replace(" ", "-"), "%s edited (%s) %r: %s" % (b[0], b[1], b[2], "; ".join(b[3])), dict(pdb=b[4], original=b[5], args=b[2], diffs=b[3]))
     ctx.oblige("spec: junk records, ignorable residues, column noise and input hydrogens change no result and not the .pka text", not ebad, str([(b[0], b[1], b[2], b[3][:1]) for b in ebad[:2]]))
@@ -158,7 +158,7 @@ def run(ctx):
         ctx.violate("protonate-all:" + b[0], "%s: --protonate-all changes results: %s" % (b[0], "; ".join(b[1])), dict(pdb=b[2], diffs=b[1]))
     ctx.oblige("spec: --protonate-all changes no pKa and no determinant", not pbad, str([(b[0], b[1][:1]) for b in pbad[:2]]))
     for b in kbad[:2]:
-        ctx.violate("keep-protons-roundtrip:" + b[0], "%s: feeding the program's own hydrogens back with -k: %s" % (b[0], "; ".join(b[1])), dict(pdb=b[2], diffs=b[1]))
+        ctx.violate("keep-protons-roundtrip:" + b[0], "%s: feeding the program's own hydrogens back with -k: %s" % (b[0], "; ".join(b[1])), dict(pdb=b[2], original=b[3], diffs=b[1]))
     ctx.oblige("spec: the program's own hydrogens fed back with -k reproduce the results (amino-acid structures)", not kbad, str([(b[0], b[1][:1]) for b in kbad[:2]]))
     if ctx.driver_ok:
         outs = common.driver_batch(reqs)
